@@ -55,11 +55,14 @@ def get(prog, flags, max_depth=2, alpha=None):
         NT, nodes, parent, truncated = numtok.explore(prog, flags, max_depth, chosen,
                                                       budget_s=float(os.environ.get("JCV_TOK_BUDGET", "150")) * 2, alpha=alpha)
         tmp = path + ".tmp%d" % os.getpid()
-        with open(tmp, "wb") as fh:
-            pickle.dump((nodes, parent, truncated, NT.stats), fh)
-        os.rename(tmp, path)
+        try:
+            with open(tmp, "wb") as fh:
+                pickle.dump((nodes, parent, truncated, NT.stats), fh)
+            os.rename(tmp, path)
+        except OSError:
+            pass
         for f in os.listdir(cdir):
-            if f.startswith("%s-%s-" % (alpha.name[:3], prog.variant)) and ("-f%d-d%d-" % (flags, max_depth)) in f and f != tag + ".pkl":
+            if f.endswith(".pkl") and f.startswith("%s-%s-" % (alpha.name[:3], prog.variant)) and ("-f%d-d%d-" % (flags, max_depth)) in f and f != tag + ".pkl":
                 try:
                     os.unlink(os.path.join(cdir, f))
                 except OSError:
